@@ -60,6 +60,7 @@ OPTIONAL_FEATURES = frozenset({
     "titles",             # title annotations on inline subschemas
     "idioms",             # apply 0-4 idiom mutations to the printed document
     "root_enum",          # the root schema may be an enum rather than a struct
+    "objunion",           # oneOf / anyOf whose branches are ALL objects (told apart by required / closed members; non-exclusive anyOf)
 })
 ALL_FEATURES = DEFAULT_FEATURES | OPTIONAL_FEATURES
 FEATURE_SETS = {
@@ -79,6 +80,7 @@ FEATURE_SETS = {
                       "refs", "allof", "allof_closed", "allof_unsat", "allof_refine"}),
     "hostile": DEFAULT_FEATURES | {"hostile_names"},
     "maps": DEFAULT_FEATURES | {"map_keys", "any", "defaults"},
+    "unions": DEFAULT_FEATURES | {"objunion", "allof"},
     "all": ALL_FEATURES - {"hostile_names", "invalid_defaults", "allof_unsat", "not_untyped"},
 }
 
@@ -133,6 +135,17 @@ class _Names:
         src = [x for x in src if x not in avoid]
         if n > len(src):
             src = src + ["%s%d" % (pool[i % len(pool)], i) for i in range(n - len(src) + 1)]
+        if self.hostile and n >= 2 and self.rng.random() < 0.35:
+            # a collision cluster: one name together with re-spellings that the identifier rules may map to the same Rust name
+            # (case changes, the trailing underscore of keyword escaping, separators)
+            base = self.rng.choice([x for x in src if x.strip("_- ")] or src)
+            alts = [a for a in dict.fromkeys([base + "_", base.capitalize(), base.lower(), base.upper(), "_" + base, base + "-", base.strip("_")])
+                    if a != base and a not in avoid and not (is_def and (a == "" or set(a) & _DEF_UNSAFE))]
+            take = [base] + self.rng.sample(alts, min(len(alts), self.rng.randint(1, 2), n - 1))
+            rest = [x for x in src if x not in take]
+            out = take + self.rng.sample(rest, n - len(take))
+            self.rng.shuffle(out)
+            return out
         return self.rng.sample(src, n)
 
 
@@ -731,9 +744,66 @@ class _Universe:
         return {"k": "enum", "tagging": tagging, "tag": tag, "content": content, "comb": "oneOf",
                 "variants": variants}
 
+    def t_objunion(self, depth):
+        """a union of object schemas only. The branches are told apart by members, not by JSON type:
+        req_closed       oneOf, every branch closed with its own required member
+        closed_opt_first oneOf, a closed all-optional branch, then branches with a required member the first does not declare
+                         (closed, open, or with a typed additionalProperties schema)
+        anyof_disjoint   anyOf of open objects without required members and with disjoint member names (not exclusive)
+        anyof_ref        the same with one branch a reference to an object definition (struct or allOf)"""
+        r = self.rng
+        names = self.names.pick(PROP_NAMES, 7)
+        def sc():
+            return {"k": "raw", "schema": r.choice([{"type": "integer"}, {"type": "string"}, {"type": "boolean"},
+                                                     {"type": "string", "enum": r.sample(ENUM_VALUES, 2)}, {"type": "integer", "minimum": 0, "maximum": 255},
+                                                     {"type": "array", "items": {"type": "string"}}])}
+        def obj(req, opt, closed=False, addl=None):
+            sch = {"type": "object", "properties": {}}
+            for n in req + opt: sch["properties"][n] = sc()["schema"]
+            if req: sch["required"] = list(req)
+            if closed: sch["additionalProperties"] = False
+            if addl is not None: sch["additionalProperties"] = addl
+            return {"k": "raw", "schema": sch}
+        mode = r.choice(["req_closed", "closed_opt_first", "closed_opt_first", "anyof_disjoint", "anyof_ref"])
+        comb = "oneOf"; branches = []
+        if mode == "req_closed":
+            n = r.randint(2, 3)
+            for i in range(n):
+                branches.append(obj([names[i]], [names[3 + i]] if self.coin(0.6) else [], closed=True))
+        elif mode == "closed_opt_first":
+            branches.append(obj([], names[0:r.randint(1, 2)], closed=True))
+            for i in range(r.randint(1, 2)):
+                style = r.choice(["closed", "open", "typed"])
+                branches.append(obj([names[2 + i]], [names[4 + i]] if self.coin(0.5) else [], closed=style == "closed",
+                                    addl={"type": r.choice(["integer", "string", "boolean"])} if style == "typed" else None))
+            if self.coin(0.3): comb = "anyOf"
+        else:
+            comb = "anyOf"
+            k = 0
+            for i in range(r.randint(2, 3)):
+                m = r.randint(1, 2)
+                branches.append(obj([], names[k:k + m])); k += m
+            if mode == "anyof_ref":
+                used = set(names)
+                def disjoint(d):
+                    if d["k"] == "struct": return not d["closed"] and not ({q["name"] for q in d["props"]} & used)
+                    if d["k"] == "allof":
+                        ps = set()
+                        for part in d["parts"]:
+                            pp = part if part["k"] == "struct" else self.defs.get(part.get("name"), {"k": "x"})
+                            if pp["k"] != "struct" or pp.get("closed"): return False
+                            ps |= {q["name"] for q in pp["props"]}
+                        return d.get("mode") in ("plain", "overlap") and not (ps & used)
+                    return False
+                ref = self.t_ref(False, disjoint)
+                if ref is not None: branches[r.randrange(len(branches))] = ref
+        return {"k": "enum", "tagging": "untagged", "tag": None, "content": None, "comb": comb, "objunion": mode,
+                "variants": [{"name": "V%d" % i, "shape": "newtype", "t": b} for i, b in enumerate(branches)]}
+
     def t_untagged(self, depth):
         """type-disjoint branches: at most one branch per JSON type class"""
         r = self.rng
+        if self.has("objunion") and self.coin(0.5): return self.t_objunion(depth)
         classes = ["string", "number", "boolean", "array", "object"]
         r.shuffle(classes)
         k = r.randint(2, 3)
@@ -1170,6 +1240,49 @@ def find_defaults(doc):
         if isinstance(s, dict) and "default" in s:
             out.append((ptr, {k: v for k, v in s.items() if k != "default"}, s["default"]))
     return out
+
+
+def inline_refs(doc):
+    """the root schema of `doc` with every `#/definitions/X` reference replaced by the definition's body (titles dropped so that
+    the in-line copies get derived names): ONE schema without definitions, for the add_type / add_type_with_name route.
+    None when the document is recursive or refers to the root."""
+    defs = doc.get("definitions") or {}
+    class Cyclic(Exception): pass
+    def go(s, stack):
+        if isinstance(s, list): return [go(x, stack) for x in s]
+        if not isinstance(s, dict): return s
+        if "$ref" in s:
+            r = s["$ref"]
+            if not r.startswith("#/definitions/"): raise Cyclic()
+            n = ptr_unescape(r[len("#/definitions/"):])
+            if n in stack or n not in defs: raise Cyclic()
+            body = go(defs[n], stack + [n])
+            if body is True: body = {}
+            body = {k: v for k, v in body.items() if k != "title"} if isinstance(body, dict) else body
+            rest = {k: go(v, stack) for k, v in s.items() if k != "$ref"}
+            if not rest: return body
+            return dict(rest, allOf=[body] + list(rest.get("allOf", []))) if isinstance(body, dict) else rest
+        return {k: (go(v, stack) if k not in ("default", "enum", "const", "required") else v) for k, v in s.items()}
+    try:
+        return go({k: v for k, v in doc.items() if k not in ("definitions", "$schema")}, [])
+    except (Cyclic, RecursionError):
+        return None
+
+
+def respell_integer_defaults(rng, doc, p=0.7):
+    """the same document with integers INSIDE `default` values written as floats with a zero fraction (3 -> 3.0): the same JSON
+    number, so every default stays exactly as valid as it was. -> (doc, number of respelled integers)"""
+    n = [0]
+    def resp(v):
+        if isinstance(v, bool): return v
+        if isinstance(v, int) and abs(v) < 2**53 and rng.random() < p: n[0] += 1; return float(v)
+        if isinstance(v, list): return [resp(x) for x in v]
+        if isinstance(v, dict): return {k: resp(x) for k, x in v.items()}
+        return v
+    doc = copy.deepcopy(doc)
+    for ptr, _, d in find_defaults(doc):
+        doc = ptr_set(doc, ptr + "/default", resp(d))
+    return doc, n[0]
 
 
 # --------------------------------------------------------------------------- instance generation
